@@ -27,6 +27,10 @@ func (pkg *ReturnStatusPackage) ReadFrom(ch BytesChannel) error {
 
 // WriteTo implements the tds.Package interface.
 func (pkg ReturnStatusPackage) WriteTo(ch BytesChannel) error {
+	if err := ch.WriteByte(byte(TDS_RETURNSTATUS)); err != nil {
+		return err
+	}
+
 	return ch.WriteInt32(pkg.ReturnValue)
 }
 
